@@ -150,6 +150,8 @@ class PyMachine:
                     emu.release_key("KEY_ON")
             elif k == "pyreset":
                 emu.reset()           # a second reset of an emulator that has already run (Python model only)
+            elif k == "treset":
+                emu._scheduler.reset(cycle_base=emu.cycle_count)     # the host re-arms the timers at the current cycle
             elif k == "wimem":
                 emu.memory.write_byte(IMEM + op[1], op[2])
             elif k == "imem_or":
